@@ -935,7 +935,7 @@ impl Builder {
 pub fn delta_chunks(tick: i32, delta_tick: i32, data: &[u8], crc: i32) -> DeltaChunks<'_> {
     DeltaChunks {
         tick: tick,
-        delta_tick: tick - delta_tick,
+        delta_tick: tick.wrapping_sub(delta_tick),
         crc: crc,
         cur_part: if !data.is_empty() { 0 } else { -1 },
         num_parts: ((data.len() + MAX_SNAPSHOT_PACKSIZE as usize - 1)
